@@ -319,10 +319,14 @@ def part4(tier, ev, fnd):
     def host(n, directive):
         return ('abi <abi/4.0>,\n\ninclude <tunables/global>\n\n@{exec_path} = @{bin}/%s\nprofile %s @{exec_path} {\n  include <abstractions/base>\n\n  @{exec_path} mr,\n\n  %s\n\n'
                 '  include if exists <local/%s>\n}\n' % (n, n, directive, n))
-    helper = ('abi <abi/4.0>,\n\ninclude <tunables/global>\n\n@{exec_path} = @{bin}/verif-c02-mmm\n@{exec_path} += @{lib}/verif-c02-mmm\nprofile verif-c02-mmm @{exec_path} flags=(complain) {\n  include <abstractions/base>\n\n'
-              '  @{exec_path} mr,\n  @{bin}/verif-x rPx,\n  @{bin}/verif-y rPUx,\n  /etc/verif-c02 r,\n\n  #aa:dbus own bus=session name=org.verif.C02\n\n  # an ordinary comment\n  /etc/verif-c02.d/ r,\n\n  profile sub flags=(complain) {\n    include <abstractions/base>\n    /etc/verif-c02.sub r,\n'
+    helper = ('abi <abi/4.0>,\n\ninclude <tunables/global>\n\n@{exec_path} = @{bin}/verif-c02-mmm\n@{exec_path} += @{lib}/verif-c02-mmm\n@{exec_path} += /opt/verif-c02-mmm #aa:only opensuse\nprofile verif-c02-mmm @{exec_path} flags=(complain) {\n  include <abstractions/base>\n\n'
+              '  @{exec_path} mr,\n  @{bin}/verif-x rPx,\n  @{bin}/verif-y rPUx,\n  /etc/verif-c02 r,\n\n  #aa:dbus own bus=session name=org.verif.C02\n\n  #aa:stack X verif-c02-ggg\n  @{bin}/verif-c02-ggg rPx,\n\n  # an ordinary comment\n  /etc/verif-c02.d/ r,\n\n  profile sub flags=(complain) {\n    include <abstractions/base>\n    /etc/verif-c02.sub r,\n'
               '    include if exists <local/verif-c02-mmm_sub>\n  }\n\n  include if exists <local/verif-c02-mmm>\n}\n')
-    extra = {'apparmor.d/groups/apps/verif-c02-mmm': helper}
+    # the profile both hosts name is itself a host: it stacks a third profile (nested stack), and one line of its
+    # preamble is guarded by an inline filter
+    grand = ('abi <abi/4.0>,\n\ninclude <tunables/global>\n\n@{exec_path} = @{bin}/verif-c02-ggg\nprofile verif-c02-ggg @{exec_path} {\n  include <abstractions/base>\n\n'
+             '  @{exec_path} mr,\n  @{bin}/verif-c02-helper rPx,\n  /etc/verif-c02-ggg r,\n\n  include if exists <local/verif-c02-ggg>\n}\n')
+    extra = {'apparmor.d/groups/apps/verif-c02-mmm': helper, 'apparmor.d/groups/apps/verif-c02-ggg': grand}
     for kind, d in (('stackx', '#aa:stack X verif-c02-mmm'), ('stack', '#aa:stack verif-c02-mmm'), ('exec', '#aa:exec verif-c02-mmm')):
         for pos in ('aaa', 'zzz'):
             extra['apparmor.d/groups/apps/verif-c02-%s-%s' % (pos, kind)] = host('verif-c02-%s-%s' % (pos, kind), d)
@@ -338,7 +342,6 @@ def part4(tier, ev, fnd):
             a = ex.text(trees[c]['apparmor.d/verif-c02-aaa-' + kind]).replace('verif-c02-aaa-', 'verif-c02-NNN-')
             z = ex.text(trees[c]['apparmor.d/verif-c02-zzz-' + kind]).replace('verif-c02-zzz-', 'verif-c02-NNN-')
             n += 1
-            a = '\n'.join(l for l in a.split('\n') if l.strip()); z = '\n'.join(l for l in z.split('\n') if l.strip())      # blank lines are layout
             if a != z:
                 import difflib
                 d = [l for l in difflib.unified_diff(a.split('\n'), z.split('\n'), 'sorted before its target', 'sorted after its target', lineterm='', n=0) if not l.startswith(('---', '+++', '@@'))]
